@@ -137,6 +137,9 @@ func (m *Mon) OnLeg(n *node.Node, l *node.Leg) {
 		if m.Enabled["C01"] || m.Enabled["C10"] {
 			m.rejectedMessage(n, l)
 		}
+		if !l.FaultFired && l.Panic == "" {
+			m.refusedRaw(n, l)
+		}
 	}
 	m.S.Update(n, l)
 	if l.OK {
@@ -154,6 +157,69 @@ func (m *Mon) OnLeg(n *node.Node, l *node.Leg) {
 		}
 	} else if m.Enabled["C01"] && l.Msg != nil && l.Msg.IsRefund {
 		m.conservation(n, l, false)
+	}
+}
+
+// refusedRaw looks at what a REFUSED call had already written when it returned its error (the node
+// rolls that back, and the pinned code relies on it for writes that precede a later guard - the
+// sender's debit, earlier tokens of a multi-transfer). Only the two refusals that a property names
+// together with "no effect" are judged, and only on the entries they protect:
+//   - C03: an attempt the caller has no authority for has written nothing at all;
+//   - C09: a plain transfer refused because the destination is not payable has not credited it.
+func (m *Mon) refusedRaw(n *node.Node, l *node.Leg) {
+	c := l.Call
+	a := c.Args
+	if m.Enabled["C03"] && len(l.RawDiff) > 0 {
+		why := ""
+		if role, ok := roleFor[c.Func]; ok && len(a) >= 1 {
+			if !m.S.HasRole(c.Caller, a[0], role) {
+				why = "the caller does not hold " + role
+			} else if c.Func == FNFTCreate && len(a) >= 2 && bigOf(a[1]).Cmp(big.NewInt(1)) > 0 && !m.S.HasRole(c.Caller, a[0], RoleAddQty) {
+				why = "the caller does not hold " + RoleAddQty + " (quantity > 1)"
+			}
+		}
+		if sysOnly[c.Func] && !isSys(c.Caller) {
+			why = "the caller is not the ESDT system contract"
+		}
+		if (c.Func == FChgOwner || c.Func == FClaim) && l.DstPresent {
+			if pa := l.Pre.Shards[l.Shard][string(c.Recipient)]; pa == nil || !bytes.Equal(pa.Owner, c.Caller) {
+				why = "the caller is not the owner"
+			}
+		}
+		if c.Func == FSetName && l.DstPresent {
+			if _, ok := n.W.DNS[string(c.Caller)]; !ok {
+				why = "the caller is not a DNS address"
+			}
+		}
+		if why != "" {
+			ch := l.RawDiff[0]
+			m.viol("C03", "unauthorised-attempt-wrote-state:"+c.Func, fmt.Sprintf("%s was refused (%v) and %s, but when it returned it had already changed %s %s %q (and %d more)", c.Func, l.Err, why, node.ShortAddr([]byte(ch.Addr)), ch.Field, ch.Key, len(l.RawDiff)-1), l)
+		} else {
+			m.R.Cover("C03/refused-raw-writes-not-judged")
+		}
+	}
+	if m.Enabled["C09"] && node.IsTransferFunc(c.Func) && len(l.RawDiff) > 0 && l.LogicalDst != nil {
+		exempt := c.CallType == vmcommon.AsynchronousCallBack || c.CallType == vmcommon.ESDTTransferAndExecute || isSys(c.Caller) || len(a) > minArgs(l)
+		if !exempt && n.W.PayAnswer(l.LogicalDst) != world.PayYes {
+			for _, ch := range l.RawDiff {
+				if ch.Addr != string(l.LogicalDst) || ch.Field != "storage" || !strings.HasPrefix(ch.Key, node.KeyPrefix) {
+					continue
+				}
+				oldT, _ := refcodec.DecodeToken(ch.Old)
+				newT, err := refcodec.DecodeToken(ch.New)
+				if err != nil || newT == nil {
+					continue
+				}
+				oldV := new(big.Int)
+				if oldT != nil {
+					oldV = oldT.Amount()
+				}
+				if newT.Amount().Cmp(oldV) > 0 {
+					m.viol("C09", "credited-before-refusal:"+c.Func+":"+sideName(l), fmt.Sprintf("the transfer was refused (%v; the oracle does not answer payable for %s) but the destination's entry %q had already been credited when the call returned", l.Err, node.ShortAddr(l.LogicalDst), ch.Key), l)
+				}
+			}
+			m.R.Cover("C09/refused-raw-judged")
+		}
 	}
 }
 
@@ -895,6 +961,8 @@ func (m *Mon) C05(n *node.Node, l *node.Leg) {
 	for _, ch := range l.Diff {
 		bad := ""
 		switch {
+		case ch.Addr != sysAcc && world.ComputeShard(n.W.NumShards, []byte(ch.Addr)) != ch.Shard:
+			bad = fmt.Sprintf("an account that lives on another shard, in the state of shard %d,", ch.Shard)
 		case ch.Field == "codemeta" || ch.Field == "nonce":
 			bad = "field " + ch.Field
 		case ch.Field != "storage":
